@@ -13,7 +13,7 @@ use std::collections::BTreeSet;
 use std::time::{Duration, SystemTime};
 use vh::core::*;
 
-const COUNTS: [usize; 8] = [0, 1, 2, 3, 8, 20, 21, 64];
+const COUNTS_QUICK: [usize; 12] = [0, 1, 2, 3, 7, 8, 9, 19, 20, 21, 63, 64];
 
 fn local_bytes() -> [u8; 32] {
     *blake3::hash(b"vh-c02-local").as_bytes()
@@ -113,6 +113,8 @@ fn x_of(n: &NodeInfo) -> Option<u8> {
 struct Ctx<'a> {
     run: &'a Run,
     distinct: &'a Distinct,
+    /// requested counts: boundary values in quick, every count 0..=64 in thorough
+    counts: Vec<usize>,
 }
 
 /// Ask every target x count through the three entry points and judge.
@@ -124,7 +126,7 @@ async fn judge(cx: &Ctx<'_>, e: &DhtCoreEngine, r: &Ref, targets: &[u8], hist: &
         let key = DhtKey::from_bytes(idb(t));
         let mut expect: Vec<u8> = r.ids.iter().copied().collect();
         expect.sort_by_key(|a| xd(*a, t));
-        for &count in COUNTS.iter() {
+        for &count in cx.counts.iter() {
             for entry in 0..3u8 {
                 let (name, cap, nodes): (&str, usize, Vec<NodeInfo>) = match entry {
                     0 => ("DhtCoreEngine::find_nodes", count, e.find_nodes(&key, count).await.unwrap_or_default()),
@@ -250,7 +252,7 @@ fn main() {
         t.extend([0x01u8, 0x81, 0xC1, 0x41, 0xFF]);
         t
     };
-    let cx = Ctx { run: &run, distinct: &distinct };
+    let cx = Ctx { run: &run, distinct: &distinct, counts: run.tier.pick(COUNTS_QUICK.to_vec(), (0..=64).collect()) };
     let merge_mismatches = std::sync::atomic::AtomicU64::new(0);
     let stats = bfs(
         ops.len(),
@@ -493,7 +495,7 @@ fn main() {
         ("rule", json!("evaluation = one closest-node query (entry point, target, count) on a reached table; distinct = distinct (entry, target, count, answer) tuples")),
         ("bounds", json!({"bfs_depth": depth, "bfs_completed_depth": stats.completed_depth, "fixpoint": stats.fixpoint, "alphabet_ops": ops.len(), "ids": id_alpha.iter().map(|x| format!("{x:#04x}")).collect::<Vec<_>>(),
                            "bfs_states": stats.states, "bfs_transitions": stats.transitions, "revisits_compared": stats.revisits, "frontier_sizes": stats.frontier_sizes,
-                           "occupancy_tables": occ_done, "full_bucket_steps": full_done, "reply_path_configs": reply_cfgs.len(), "reply_path_queries": reply_queries, "occupancy_values": occ_vals, "targets_bfs": targets_a.len(), "targets_occupancy": 256, "counts": COUNTS})),
+                           "occupancy_tables": occ_done, "full_bucket_steps": full_done, "reply_path_configs": reply_cfgs.len(), "reply_path_queries": reply_queries, "occupancy_values": occ_vals, "targets_bfs": targets_a.len(), "targets_occupancy": 256, "counts": cx.counts})),
     ]);
     run.finish(
         coverage,
